@@ -142,13 +142,18 @@ def run(project, chk):
                 kind = "forwarded as min_contrast"
             elif isinstance(par, ast.Call) and n in par.args:
                 cq = sc.resolve_call(par)
-                if cq in project.funcs:
-                    try:
-                        b = bind_args(project.funcs[cq], par)
-                        if any(v is n and k == MIN for k, v in b.items()):
-                            kind = "forwarded as min_contrast"
-                    except ValueError:
-                        pass
+                cands = [cq] if cq in project.funcs else []
+                if not cands and isinstance(par.func, ast.Name):
+                    # a function-valued local (`strategy = _strategy_strict ... strategy(...)`): every function it can hold
+                    vals = [a2.value for a2 in own_nodes(f.node) if isinstance(a2, ast.Assign) and len(a2.targets) == 1 and isinstance(a2.targets[0], ast.Name) and a2.targets[0].id == par.func.id]
+                    res = [sc.resolve(v) for v in vals]
+                    if vals and all(r in project.funcs for r in res):
+                        cands = res
+                try:
+                    if cands and all(any(v is n and k == MIN for k, v in bind_args(project.funcs[c2], par).items()) for c2 in cands):
+                        kind = "forwarded as min_contrast"
+                except ValueError:
+                    pass
             elif isinstance(par, ast.Assign) and par.value is n and len(par.targets) == 1 and isinstance(par.targets[0], ast.Name) and par.targets[0].id in aliases:
                 kind = "alias"
             chk.check(kind is not None, "R4", f.short, norm_text(par if par is not None else n)[:120], project.loc(m, n),
